@@ -49,7 +49,7 @@ def _chunks_ok(ctx, r, what):
     return True
 
 
-def _same(ctx, what, r, e, exact=True, check_blocks=True):
+def _same(ctx, what, r, e, exact=True, check_blocks=True, tol_steps=64, value_sig=None):
     """computed dask array == NumPy (shape, dtype, values) and each block has its declared shape."""
     import numpy as np
     e = np.asarray(e)
@@ -76,9 +76,9 @@ def _same(ctx, what, r, e, exact=True, check_blocks=True):
     else:
         eps = float(np.finfo(g.dtype).eps)
         scale = max(1.0, float(np.max(np.abs(e)))) if e.size else 1.0
-        ok = np.allclose(g, e, rtol=0, atol=64 * eps * scale, equal_nan=True)
+        ok = np.allclose(g, e, rtol=0, atol=tol_steps * eps * scale, equal_nan=True)
     if not ok:
-        ctx.fail(f"{what}: values differ from NumPy", observed=g.tolist(), expected=e.tolist())
+        ctx.fail(f"{what}: values differ from NumPy", sig=value_sig, observed=g.tolist(), expected=e.tolist())
         return False
     if check_blocks:
         why = blocks_match_chunks(r)
@@ -89,19 +89,42 @@ def _same(ctx, what, r, e, exact=True, check_blocks=True):
 
 
 def _num(v):
-    """JSON number form: int | [num, den] (a fraction, turned into a float) -> python value"""
+    """JSON number form -> python value: int | [num, den] (a fraction, turned into a float by one correctly rounded
+    division) | {"hex": "0x1.8p+3"} (that exact double)"""
     if isinstance(v, list):
         return v[0] / v[1]
+    if isinstance(v, dict):
+        return float.fromhex(v["hex"])
     return v
+
+
+def _f2p(x):
+    """a finite float (or int) as the model's pair [m, e] = m * 2**e"""
+    if isinstance(x, int):
+        return [x, 0]
+    n, d = float(x).as_integer_ratio()
+    return [n, -(d.bit_length() - 1)]
+
+
+def _p2frac(p):
+    return Fraction(p[0]) * (Fraction(2) ** p[1])
 
 
 def _tasks(r):
     return dict(r.dask)
 
 
+def _arange_guard(a, s):
+    """the guard of da.arange that switches to `arange(0, stop - start, step) + start`"""
+    import numpy as np
+    return bool(a != 0 and not np.isclose(a + s - a, s, atol=0))
+
+
 def case_arange(ctx, inp):
+    import math
     import numpy as np
     import dask.array as da
+    from dask.array import chunk as da_chunk
     setup_dask()
     a, b, s = inp["start"], inp["stop"], inp["step"]
     dtype = inp.get("dtype")
@@ -115,9 +138,11 @@ def case_arange(ctx, inp):
     try:
         r = da.arange(pa, pb, ps, chunks=chunks, dtype=dtype)
     except ZeroDivisionError:
-        if s == 0:
+        if ps == 0:
             if ints:
                 ctx.eq("arange num (step 0)", ctx.lean(Sym("arange"), a, b, s, []), [Sym("raised")])
+            elif all(isinstance(v, float) for v in (pa, pb, ps)):
+                ctx.eq("arange_f num (step 0.0)", ctx.lean(Sym("arange_f"), _f2p(pa), _f2p(pb), _f2p(ps), []), [Sym("raised")])
             ctx.branch("arange:step0")
             return
         raise
@@ -128,8 +153,8 @@ def case_arange(ctx, inp):
         return
     if e is None:
         return
+    cs = list(r.chunks[0])
     if ints:
-        cs = list(r.chunks[0])
         m = ctx.lean(Sym("arange"), a, b, s, cs)
         ctx.eq("arange: num", m[0], len(e))
         ctx.eq("arange: sum(chunks)", sum(cs), len(e))
@@ -137,21 +162,150 @@ def case_arange(ctx, inp):
         impl = []
         for i in range(len(cs)):
             t = tasks[(r.name, i)]
-            impl.append([int(t.args[0]), int(t.args[1]), int(t.args[3])])
+            if getattr(t.func, "func", t.func) is not da_chunk.arange_block or (t.args[0], t.args[1]) != (a, s):
+                ctx.disagree("arange: task is not chunk.arange_block(start, step, …)", [a, s], repr(t)[:200])
+            impl.append([int(t.args[2]), int(t.args[3])])
         if not (len(e) == 0 and cs == [0]):
-            ctx.eq("arange: task arguments (blockstart, blockstop, len)", m[1], impl)
+            ctx.eq("arange: task arguments (offset, size)", m[3], impl)
             if dtype in (None, "i8", "i4"):
                 blocks = [np.asarray(r.blocks[i].compute(scheduler="sync")).tolist() for i in range(len(cs))]
-                ctx.eq("arange: block values vs Lean", m[2], blocks)
+                ctx.eq("arange: block values vs Lean", m[4], blocks)
+            # the fallback of arange_block (dtypes without index arithmetic): chunk.arange on the block bounds
+            if len(cs) <= 6:
+                fb = [np.asarray(da_chunk.arange(blk[0], blk[1], s, blk[2], "i8")).tolist() for blk in m[1]]
+                ctx.eq("arange: chunk.arange on the model's block bounds vs Lean (fallback plan)", m[2], fb)
         ctx.branch("arange:int" + (":neg" if s < 0 else "") + (":empty" if len(e) == 0 else ""))
         if len(cs) > 1:
             ctx.branch("arange:multi-block")
         _same(ctx, "arange", r, e, exact=True)
+        return
+    shifted = _arange_guard(pa, ps)
+    allfloat = all(isinstance(v, float) for v in (pa, pb, ps)) and all(math.isfinite(v) for v in (pa, pb, ps))
+    ctx.branch("arange:fractional" + (":neg" if ps < 0 else "") + (":shifted" if shifted else ""))
+    if len(cs) > 1:
+        ctx.branch("arange:fractional:multi-block")
+    if allfloat and dtype in (None, "f8") and len(e) <= 400:
+        # function level: the binary64 model (Model/SoftFloat.lean, Model/CreationFloat.lean) bit for bit
+        m = ctx.lean(Sym("arange_f"), _f2p(pa), _f2p(pb), _f2p(ps), cs)
+        if m == [Sym("raised")]:
+            ctx.disagree("arange_f: the model raises, dask returned an array", m, list(r.shape))
+            return
+        ctx.eq("arange_f: takes the `arange(0, stop-start, step) + start` path", m[0], r.name.startswith("add-"))
+        ctx.eq("arange_f: the harness' copy of the guard", m[0], shifted)
+        ctx.eq("arange_f: num (binary64 ceil((stop-start)/step))", m[1], len(e))
+        try:
+            blocks = [[Fraction(float(v)) for v in np.asarray(r.blocks[i].compute(scheduler="sync"))] for i in range(len(cs))]
+        except Exception as ex:
+            ctx.fail(f"arange: block compute raised {type(ex).__name__}", observed=str(ex)[:200])
+            return
+        mb = [[_p2frac(v) for v in blk] for blk in m[2]]
+        if mb != blocks:
+            ctx.disagree("arange_f: block values (binary64, bit for bit)", [[float(v) for v in blk] for blk in mb],
+                         [[float(v) for v in blk] for blk in blocks])
+        if [v for blk in mb for v in blk] != [_p2frac(v) for v in m[3]]:
+            ctx.disagree("arange_f: Lean blocks do not concatenate to the Lean one-block array", m[2], m[3])
+        ctx.branch("arange:f64-model-diffed")
+        if len(e) and len(cs) > 1:
+            # what the plan before `fix: da.arange computes every element from its global index` declared: measures how
+            # often the generator reaches the inputs on which that plan produced blocks of the wrong length
+            old = ctx.lean(Sym("arange_old_lens"), _f2p(pa), _f2p(ps), cs)
+            if old != cs:
+                ctx.branch("arange:old-plan-block-lengths-wrong")
+    if not shifted and dtype in (None, "f8", "f4"):
+        # NumPy's own fill loop, reproduced per block from global indices: bit for bit
+        _same(ctx, "arange (fractional)", r, e, exact=True)
     else:
-        ctx.branch("arange:fractional" + (":neg" if ps < 0 else ""))
-        if len(r.chunks[0]) > 1:
-            ctx.branch("arange:fractional:multi-block")
-        _same(ctx, "arange (fractional)", r, e, exact=False)
+        # `arange(0, stop-start, step) + start` deliberately differs from NumPy's fill (dask#11706); int dtypes with float
+        # arguments are cast from the float values (pinned strict xfail test_arange_cast_float_int_step)
+        if dtype is not None and np.dtype(dtype).kind in "iu":
+            _same(ctx, "arange (float arguments, integer dtype)", r, e, exact=True,
+                  value_sig="arange:float-arguments:int-dtype:values-differ-from-numpy")
+            ctx.branch("arange:float-args:int-dtype")
+            return
+        _same(ctx, "arange (fractional, shifted)", r, e, exact=False, tol_steps=len(e) + 4)
+    # chunk invariance, bit for bit: the same call as one chunk
+    one = np.asarray(da.arange(pa, pb, ps, chunks=-1, dtype=dtype).compute(scheduler="sync"))
+    got = np.asarray(r.compute(scheduler="sync"))
+    if one.shape != got.shape or not np.array_equal(one, got):
+        ctx.fail("arange: values depend on the chunking", observed=got.tolist(), expected=one.tolist())
+
+
+_SF_OPS = ["add", "sub", "mul", "div", "ceil", "ofint", "le", "isclose"]
+
+
+def case_softfloat(ctx, inp):
+    """the binary64 model itself against CPython/NumPy floats, bit for bit"""
+    import math
+    import numpy as np
+    op = inp["op"]
+    if op == "const":
+        ctx.eq("softfloat: rtol of np.isclose", ctx.lean(Sym("sf"), Sym("mul"), _f2p(1e-5), [1, 0]), _norm_pair(_f2p(1e-5)))
+        import inspect
+        if inspect.signature(np.isclose).parameters["rtol"].default != 1e-5:
+            ctx.disagree("np.isclose default rtol", 1e-5, inspect.signature(np.isclose).parameters["rtol"].default)
+        ctx.eq("softfloat: isclose(1, 1+rtol) boundary", ctx.lean(Sym("sf"), Sym("isclose"), _f2p(1 + 1e-5), [1, 0]),
+               bool(np.isclose(1 + 1e-5, 1.0, atol=0)))
+        return
+    if op == "ofint":
+        n = inp["x"]
+        try:
+            want = float(n)
+        except OverflowError:
+            return
+        ctx.eq("softfloat: float(int)", _p2frac(ctx.lean(Sym("sf"), Sym("ofint"), [n, 0], [0, 0])), Fraction(want))
+        ctx.branch("sf:ofint" + (":inexact" if int(want) != n else ""))
+        return
+    x, y = _num(inp["x"]), _num(inp["y"])
+    px, py = _f2p(x), _f2p(y)
+    with np.errstate(all="ignore"):
+        if op == "ceil":
+            ctx.eq("softfloat: ceil", ctx.lean(Sym("sf"), Sym("ceil"), px, py), int(math.ceil(x)))
+            ctx.branch("sf:ceil")
+            return
+        if op == "le":
+            ctx.eq("softfloat: <=", ctx.lean(Sym("sf"), Sym("le"), px, py), x <= y)
+            ctx.branch("sf:le")
+            return
+        if op == "isclose":
+            d = x - y
+            if not math.isfinite(d) or not math.isfinite(1e-5 * abs(y)):
+                return
+            ctx.eq("softfloat: np.isclose(x, y, atol=0)", ctx.lean(Sym("sf"), Sym("isclose"), px, py), bool(np.isclose(x, y, atol=0)))
+            ctx.branch("sf:isclose:" + str(bool(np.isclose(x, y, atol=0))))
+            return
+        try:
+            want = {"add": lambda: x + y, "sub": lambda: x - y, "mul": lambda: x * y, "div": lambda: x / y}[op]()
+        except ZeroDivisionError:
+            ctx.eq("softfloat: division by zero", ctx.lean(Sym("sf"), Sym(op), px, py), [Sym("raised")])
+            ctx.branch("sf:div0")
+            return
+    if not math.isfinite(want):
+        ctx.note("softfloat_overflow_skipped")
+        return
+    got = ctx.lean(Sym("sf"), Sym(op), px, py)
+    if _p2frac(got) != Fraction(want):
+        ctx.disagree(f"softfloat: {op}", float(_p2frac(got)).hex(), want.hex())
+    exact = {"add": lambda: Fraction(x) + Fraction(y), "sub": lambda: Fraction(x) - Fraction(y),
+             "mul": lambda: Fraction(x) * Fraction(y), "div": lambda: Fraction(x) / Fraction(y)}[op]()
+    kind = "exact" if exact == Fraction(want) else "rounded"
+    if want != 0 and abs(want) < 2.0 ** -1022:
+        kind += ":subnormal"
+    if kind.startswith("rounded"):
+        # a tie: the exact result lies half way between two doubles
+        lo, hi = sorted([Fraction(want), Fraction(math.nextafter(want, math.inf if exact > Fraction(want) else -math.inf))])
+        if exact - lo == hi - exact:
+            kind += ":tie"
+    ctx.branch(f"sf:{op}:{kind}")
+
+
+def _norm_pair(p):
+    m, e = p
+    if m == 0:
+        return [0, 0]
+    while m % 2 == 0:
+        m //= 2
+        e += 1
+    return [m, e]
 
 
 def case_linspace(ctx, inp):
@@ -374,7 +528,8 @@ def case_misc(ctx, inp):
     ctx.branch("misc:" + op)
 
 
-CASES = {"arange": case_arange, "linspace": case_linspace, "eye": case_eye, "diag": case_diag, "misc": case_misc}
+CASES = {"arange": case_arange, "linspace": case_linspace, "eye": case_eye, "diag": case_diag, "misc": case_misc,
+         "softfloat": case_softfloat}
 
 
 def _chunk_spec(rng, n, allow_tuple=True):
@@ -471,6 +626,153 @@ def _gen_eye(ctx):
                       "dtype": rng.choice(["f8", "i8", "bool", "f4"])}
 
 
+def _hx(x):
+    return {"hex": float(x).hex()}
+
+
+def _gen_arange_float(ctx):
+    """float `arange` where binary64 rounding decides lengths: steps of about one ulp of the values (the inputs on which
+    the plan before `fix: da.arange computes every element from its global index` built blocks of the wrong length),
+    (stop-start)/step within a few ulps of an integer, the guard `isclose(start + step - start, step)` from both sides"""
+    import math
+    rng = ctx.rng
+    yield "arange", {"start": _hx(2.0 ** 30 - 3 * 2.0 ** -23), "stop": _hx(2.0 ** 30 + 10 * 2.0 ** -23), "step": _hx(2.0 ** -23),
+                     "chunks": 2, "dtype": None}
+    yield "arange", {"start": _hx(2.0 ** 53 - 2), "stop": _hx(2.0 ** 53 + 10), "step": _hx(1.0), "chunks": 3, "dtype": None}
+    for _ in range(ctx.n(90, 1500)):
+        # step = a small multiple of the ulp just below / above a power of two; the range crosses the binade
+        e = rng.randint(-8, 53)
+        u = 2.0 ** (e - 52) / rng.choice([1, 2, 2])
+        step = u * rng.choice([1, 1, 1, 2, 3, -1, -2, 1.5, 0.5])
+        start = 2.0 ** e - rng.randint(0, 7) * abs(u) * rng.choice([1, 1, 1, -1])
+        if rng.random() < 0.2:
+            start = -start
+        n = rng.randint(0, 24)
+        stop = start + n * step
+        yield "arange", {"start": _hx(start), "stop": _hx(stop), "step": _hx(step),
+                         "chunks": rng.choice([1, 2, 2, 3, 4, 5, 7]), "dtype": None}
+    steps = [0.1, 0.3, 0.7, 1 / 3, 0.01, 1e-3, 2.5, 1.1, 0.2, 1e-7, 3.3]
+    for _ in range(ctx.n(110, 2000)):
+        # (stop - start) / step within a few ulps of an integer
+        step = rng.choice(steps) * rng.choice([1, 1, 1, -1]) * rng.choice([1, 1, 2.0 ** rng.randint(-20, 20)])
+        start = rng.choice([0.0, 1.0, -1.0, 0.1, rng.uniform(-5, 5), rng.uniform(-1e3, 1e3), float(rng.randint(-9, 9))])
+        n = rng.randint(0, 60)
+        stop = start + n * step
+        for _k in range(rng.randint(0, 3)):
+            stop = math.nextafter(stop, rng.choice([math.inf, -math.inf]))
+        yield "arange", {"start": _hx(start), "stop": _hx(stop), "step": _hx(step),
+                         "chunks": rng.choice([1, 2, 3, 4, 5, 7, 11, 13, "auto"]), "dtype": rng.choice([None, None, None, "f8", "f4"])}
+    for _ in range(ctx.n(80, 1200)):
+        # |start| large against step: the guard isclose(start + step - start, step, rtol=1e-5) from both sides
+        k = rng.randint(8, 62)
+        start = rng.choice([1, -1]) * (2.0 ** k + rng.randint(-3, 3) * 2.0 ** max(k - 52, -30))
+        ulp = math.ulp(start)
+        step = ulp * rng.choice([0.3, 0.5, 1, 1.5, 2, 7, 1000.5, 5e4 + 0.5, 1e5 + 0.5, 1e6 + 0.5, 2 ** 20, 3 * 2 ** 17 + 1]) * rng.choice([1, 1, -1])
+        n = rng.randint(0, 30)
+        stop = start + n * step + rng.choice([0, 0, step / 2, -step / 3])
+        yield "arange", {"start": _hx(start), "stop": _hx(stop), "step": _hx(step),
+                         "chunks": rng.choice([1, 2, 3, 5, 7, "auto"]), "dtype": None}
+    for _ in range(ctx.n(12, 150)):
+        # float arguments with an integer dtype (documented NumPy quirk; pinned strict xfail in dask's suite)
+        d = rng.choice([10, 4, 3])
+        yield "arange", {"start": [rng.randint(-30, 30), d], "stop": [rng.randint(-30, 60), d], "step": [rng.choice([1, 2, 3, 7, -3, -7]), d],
+                         "chunks": rng.choice([1, 2, 3, 5]), "dtype": rng.choice(["i8", "i4"])}
+
+
+def _rand_double(rng, emin=-1074, emax=900):
+    """a random finite double: random 53-bit significand patterns (dense, sparse, all-ones) times a power of two"""
+    r = rng.random()
+    if r < 0.5:
+        m = rng.getrandbits(53) | (1 << 52)
+    elif r < 0.65:
+        m = (1 << 53) - 1 - rng.getrandbits(3)
+    elif r < 0.8:
+        m = (1 << 52) + rng.getrandbits(3)
+    elif r < 0.9:
+        m = rng.getrandbits(rng.randint(1, 27)) or 1
+    else:
+        m = rng.getrandbits(rng.randint(1, 52)) or 1          # fewer bits: subnormal-like patterns
+    e = rng.randint(emin, emax)
+    import math
+    return math.ldexp(m, e) * rng.choice([1, 1, -1])
+
+
+def _gen_softfloat(ctx):
+    """operands for the binary64 model itself: random significands over the whole exponent range, exact ties
+    (half an ulp), results in the subnormal range, exact and inexact quotients, integers around 2**53"""
+    import math
+    rng = ctx.rng
+    yield "softfloat", {"op": "const"}
+    for _ in range(ctx.n(420, 9000)):
+        op = rng.choice(["add", "add", "sub", "sub", "mul", "mul", "div", "div", "div", "ceil", "le", "isclose", "ofint"])
+        if op == "ofint":
+            k = rng.choice([52, 53, 54, 60, 63, 64, 100])
+            n = rng.choice([1, -1]) * ((1 << k) + rng.randint(-5, 5) + rng.choice([0, 1 << (k - 53) if k > 53 else 0, 3 << max(k - 54, 0)]))
+            yield "softfloat", {"op": op, "x": n}
+            continue
+        r = rng.random()
+        if op in ("add", "sub"):
+            x = _rand_double(rng, -1074, 60)
+            if r < 0.35:
+                # y = half an ulp of x (a tie) or next to it
+                y = math.ulp(x) / 2 * rng.choice([1, -1])
+                if y != 0 and rng.random() < 0.5:
+                    y = math.nextafter(y, rng.choice([0.0, math.copysign(math.inf, y)]))
+            elif r < 0.6:
+                y = x * rng.choice([-1, 1]) + math.ulp(x) * rng.randint(-3, 3)      # cancellation
+            elif r < 0.8:
+                y = _rand_double(rng, -1074, -1000) if abs(x) < 1e-290 else math.ldexp(_rand_double(rng, 0, 0), rng.randint(-56, 3)) * x / (2.0 ** 52)
+            else:
+                y = _rand_double(rng, -1074, 60)
+        elif op == "mul":
+            x = _rand_double(rng, -600, 400)
+            if r < 0.3:
+                x = _rand_double(rng, -500, -52)
+                t = rng.randint(-1078, -1015) - 52 - math.frexp(x)[1]
+                y = _rand_double(rng, t, t)                                                    # product in the subnormal range
+            elif r < 0.5:
+                x = float(rng.getrandbits(27) + 1) * 2.0 ** rng.randint(-40, 40)
+                y = float(rng.getrandbits(26) + 1) * 2.0 ** rng.randint(-40, 40)                   # exact
+            else:
+                y = _rand_double(rng, -400, 400)
+        elif op == "div":
+            y = _rand_double(rng, -400, 400)
+            if r < 0.1:
+                y = 0.0
+                x = _rand_double(rng, -10, 10)
+            elif r < 0.35:
+                x = y * float(rng.randint(-1000, 1000))                                      # exact integer quotient
+                if math.isinf(x):
+                    x = 1.0
+            elif r < 0.55:
+                x = float(rng.randint(-(1 << 53), 1 << 53))
+                y = float(rng.randint(1, 1 << rng.randint(1, 53)))
+            elif r < 0.7:
+                x = _rand_double(rng, -1074, -1020) * 1.0
+                y = _rand_double(rng, 0, 40)                                                  # subnormal quotient
+            else:
+                x = _rand_double(rng, -400, 400)
+        elif op == "ceil":
+            k = rng.randint(-3, 60)
+            x = rng.choice([1, -1]) * (float(rng.randint(0, 1 << max(k, 1))) + rng.choice([0.0, 0.5, 2.0 ** -20, -2.0 ** -20, 1 - 2.0 ** -30]))
+            if r < 0.15:
+                x = _rand_double(rng, -1074, 70)
+            y = 0.0
+        elif op == "le":
+            x = _rand_double(rng, -1074, 100)
+            y = rng.choice([x, -x, math.nextafter(x, math.inf), math.nextafter(x, -math.inf), _rand_double(rng, -1074, 100), 0.0])
+        else:   # isclose: y*(1 ± 1e-5) to within a few ulps, equal values, far values
+            y = _rand_double(rng, -900, 900)
+            x = y * (1 + rng.choice([1e-5, -1e-5, 1e-5 * (1 + 2.0 ** -30), 1e-5 * (1 - 2.0 ** -30), 0, 1e-3, 2e-5, 1e-6]))
+            for _k in range(rng.randint(0, 2)):
+                x = math.nextafter(x, rng.choice([math.inf, -math.inf]))
+            if r < 0.1:
+                y = 0.0
+        if not (math.isfinite(x) and math.isfinite(y)):
+            continue
+        yield "softfloat", {"op": op, "x": _hx(x), "y": _hx(y)}
+
+
 def generate(ctx):
     rng = ctx.rng
     yield from _gen_eye(ctx)
@@ -494,8 +796,13 @@ def generate(ctx):
         if rng.random() < 0.3:  # integer start
             a0 = rng.randint(-3, 3)
             a, b = a0 * d, a0 * d + (b - a)
-        yield "arange", {"start": [a, d] if a % d else a // d, "stop": [b, d], "step": [sn, d],
+        # an integral start stays a Python int in ~1/3 of the cases (mixed int/float arithmetic: API level only),
+        # otherwise it is the float (all-float inputs are also diffed against the binary64 model)
+        st = [a, d] if a % d else (a // d if rng.random() < 0.35 else {"hex": float(a // d).hex()})
+        yield "arange", {"start": st, "stop": [b, d], "step": [sn, d],
                          "chunks": rng.choice([1, 2, 3, 4, 5, 7, 11, "auto"]), "dtype": rng.choice([None, None, "f8", "f4"])}
+    yield from _gen_arange_float(ctx)
+    yield from _gen_softfloat(ctx)
     # --- linspace ------------------------------------------------------------------------------------
     for _ in range(ctx.n(240, 4000)):
         num = rng.choice([0, 1, 2, 3, 5, 8, 13, 50]) if rng.random() < 0.7 else rng.randint(0, 60)
